@@ -55,7 +55,8 @@ KeyOf(tx, n) == IF tx.kind = "native" THEN NativeKey(tx, n) ELSE EthKey(tx, n)
 JudgeVerify(e) ==
   LET tx == e.tx
       acc == Accept(tx, e.h)
-      who == e.kind \o ":" \o e.mut
+      \* for a bit flip in the RLP payload the flipped byte (before>after) is part of the class
+      who == e.kind \o ":" \o e.mut \o (IF e.edflip = "" THEN "" ELSE ":" \o e.edflip)
   IN  Tag(~e.panic, "Inv.Total.panic:" \o e.kind) \o
       Tag(\A n \in AllFields : e.same[n] = (KeyOf(tx, n) = KeyOf(e.base, n)), "Proj.same:" \o who) \o
       (IF e.panic \/ e.cls = "either" THEN <<>>
